@@ -253,7 +253,8 @@ def explore(thunk, pre=(), prune_ms=250, max_paths=4000, history=False, label=No
                     dead = zcheck(sv, prune_ms) == z3.unsat
                     sv.pop()
                 if not dead:
-                    (hout if phase else out).append(dict(pc=pc, kind=r[0], val=r[1], decisions=list(S.ctx.prefix), history=bool(phase)))
+                    (hout if phase else out).append(dict(pc=pc, kind=r[0], val=r[1], decisions=list(S.ctx.prefix), history=bool(phase),
+                                                         loops={k: dict(v) for k, v in LOOPS.items()}))       # this path's own loop records
                 if len(out) + len(hout) > max_paths:
                     raise EngineError('path explosion')
     finally:
@@ -1068,13 +1069,17 @@ QLOG = []
 Z3V = 'z3 ' + z3.get_version_string()
 
 
+THOROUGH = os.environ.get('VERIF_TIER') == 'thorough'
+RECHECK = {}
+
+
 def _cvc5_check(solver_assertions, timeout_ms):
     """second opinion: the same assertion set through cvc5 (CLI on SMT-LIB2 text)"""
     s = z3.Solver()
     s.add(*solver_assertions)
     txt = '(set-logic ALL)\n' + s.to_smt2()
     try:
-        with tempfile.NamedTemporaryFile('w', suffix='.smt2', delete=False) as f:
+        with tempfile.NamedTemporaryFile('w', suffix='.smt2', delete=False, dir=os.environ.get('VERIF_SCRATCH') or None) as f:
             f.write(txt)
             fn = f.name
         r = subprocess.run(['/usr/bin/cvc5', '--tlimit=%d' % timeout_ms, fn], capture_output=True, text=True,
@@ -1111,6 +1116,13 @@ def prove(goal, hyps=(), timeout=60000, rounds=2, use_axioms=True, cvc5=True, ex
         QLOG.append(dict(stage=stage, result=str(r), ms=round(1000 * (time.time() - t0))))
         if r == z3.unsat:
             res = dict(result='discharged', stage=stage, ms=round(1000 * (time.time() - t0)), backend=Z3V)
+            if THOROUGH:
+                # thorough tier: the discharging query is put to cvc5 as well; a definite disagreement is a checker error
+                r2 = _cvc5_check(A, 8000)
+                RECHECK[r2] = RECHECK.get(r2, 0) + 1
+                res['cvc5_recheck'] = r2
+                if r2 == 'sat':
+                    raise EngineError('solver disagreement: z3 unsat, cvc5 sat on a discharging query')
             if stage >= 1 and H:
                 # vacuity guard: contradictory hypotheses discharge anything
                 sv = z3.Solver()
